@@ -32,7 +32,7 @@ CHECKS = {
    design_ref="DESIGN.md 4.8, 6 (C16)"),
  "C13": dict(
    technique="TLA+ model XtCli of main.rs model-checked with TLC over all argument vectors of bounded length; every vector replayed on the real debug/release binaries (pipe, file, pty)",
-   text="TLC explores the model of the command line (lexopt's left-to-right parsing, terminal guard, per-input loop, bail paths) for every argument vector of up to 3 tokens over the option/operand vocabulary and checks the exit-status and stream-discipline invariants in every state; each vector, with the predicted exit status, stdout content, stderr class and named input, is executed on the real binaries with real files and compared.",
+   text="TLC explores the model of the command line (lexopt's left-to-right parsing, terminal guard, per-input loop, bail paths) for every argument vector of up to 3 tokens over the option/operand vocabulary and checks the exit-status and stream-discipline invariants in every state; each vector, with the predicted exit status, stdout content, stderr class and named input, is executed on the real binaries with real files (regular, empty, FIFO, directory) and compared; a second stage runs with standard output on /dev/full (never exit 0).",
    note="Vocabulary of 22 (quick) / 36 (thorough) tokens; what the library does for each content is measured, not modelled. Unreadable = missing file or directory (the sandbox runs as root).",
    design_ref="DESIGN.md 4.8, 6 (C13)"),
  "C14": dict(
@@ -58,7 +58,7 @@ CHECKS = {
    design_ref="DESIGN.md 4.5, 6 (C07)"),
  "C11": dict(
    technique="TLA+ model XtTranscode of stream.rs model-checked with TLC; every case replayed on the real transcoder with scripted serde objects; error texts of planted failures validated by TLC against XtErrText",
-   text="TLC evaluates the model of the transcoder's error plumbing for every tree of up to 5 nodes and every fault plan (each step of the serializer or deserializer failing) and checks attribution; each case, with its predicted variant, error identities and exact step sequence, is replayed on the real generic transcoder. End to end, translations with a planted syntax error, an unrepresentable value at a random path, or a writer failing at every output byte are recorded and TLC checks the text rules.",
+   text="TLC evaluates the model of the transcoder's error plumbing for every tree of up to 5 nodes and every fault plan (each step of the serializer or deserializer failing) and checks attribution; each case, with its predicted variant, error identities and exact step sequence, is replayed on the real generic transcoder. End to end, translations with a planted syntax error, an unrepresentable value at a random path, an undecodable UTF-16/32 code unit, or a writer failing at every output byte are recorded and TLC checks the text rules. A command-line stage on the XtCli model requires stderr to be exactly 'xt error in <input>: ' followed by the library's message (also a 1.3 KB TOML parser message).",
    note="Trees are bounded (5 nodes, depth 2); the text rules compare xt with itself across targets and look for the injected writer message, not for hard-coded wording.",
    design_ref="DESIGN.md 4.4, 6 (C11)"),
  "C10": dict(
